@@ -4464,8 +4464,10 @@ class ParseCtx:
                 i += 1
                 if contents[i] == "x" or contents[i] == "u":
                     if contents[i] == "u":
-                        raise NotImplementedError("don't support uescapes yet")
+                        raise IllegalParseTree("\\u escapes are not supported yet, in string literal " + escaped_string)
                     code = contents[i+1:i+3]
+                    if len(code) != 2 or any(x not in string.hexdigits for x in code):
+                        raise IllegalParseTree("\\x must be followed by two hex digits, in string literal " + escaped_string)
                     result += chr(int(code, base=16))
                     i += 3
                 else:
@@ -4479,7 +4481,7 @@ class ParseCtx:
                         '\\': '\\'
                     }
                     if contents[i] not in escapes:
-                        raise ValueError("unknown escape sequence \\" + contents[i])
+                        raise IllegalParseTree("Unknown escape sequence \\" + contents[i] + " in string literal " + escaped_string)
                     result += escapes[contents[i]]
                     i += 1
         return result
